@@ -340,6 +340,8 @@ class Interp:
             return True
         if isinstance(v, LazyOpt):
             return self.truth(self.resolve_opt(v), label)
+        if isinstance(v, Arb):
+            return self.path.branch(z3.Bool(self.path.fresh_name(f"arb-truthy({v.tag})")), label)
         raise Unsupported(f"truth value of {v!r}")
 
     def as_bool_term(self, v):
@@ -887,6 +889,11 @@ class Interp:
             return ClassRef(o.cls)
         if attr in o.fields:
             v = o.fields[attr]
+            if isinstance(v, Arb) and not getattr(v, "resolved", False):
+                # arbitrary leftover state: None or some value (fork once per object field)
+                nv = Arb(v.tag)
+                nv.resolved = True
+                v = LazyOpt(z3.Bool(self.path.fresh_name(f"{o.name}.{attr}.is-None")), nv)
             if isinstance(v, LazyOpt):
                 v = self.resolve_opt(v)
                 o.fields[attr] = v
